@@ -65,6 +65,12 @@ OPTIONAL_COMBOS = [
     {'model_var': F(lambda: np.array([0.02, 0.03, 0.01])), 'dof': 5}, {'diff_var': F(lambda: np.array([0.04, 0.02, 0.03])), 'dof': 5},
     {'noise_ceil_var': F(lambda: np.array([[0.02, 0.02], [0.03, 0.03], [0.01, 0.01]])), 'dof': 5},
     {'reindex': False}, {'positive': True}, {'calc_noise_ceil': False}, {'k_rdm': 2, 'k_pattern': 2},
+    # the sizes of the bootstrapped factors (finite-sample corrections of the variances), with 1-D, 2-D and dual-bootstrap
+    # (3-D) covariances
+    {'n_rdm': 4, 'n_pattern': 5}, {'n_rdm': 4}, {'n_pattern': 5},
+    {'variance': F(lambda: np.array([np.eye(5) * (0.01 + 0.01 * t) + 0.001 for t in range(3)])), 'n_rdm': 4, 'n_pattern': 5},
+    {'variance': F(lambda: np.array([np.eye(5) * (0.01 + 0.01 * t) + 0.001 for t in range(3)])), 'n_rdm': 4, 'n_pattern': 5, 'nc_included': False},
+    {'variances': F(lambda: np.array([np.eye(5) * (0.01 + 0.01 * t) + 0.001 for t in range(3)])), 'n_rdm': 4, 'n_pattern': 5},
 ]
 SCOPE = tuple(p + '.' for p in ['rsatoolbox.rdm', 'rsatoolbox.data', 'rsatoolbox.model', 'rsatoolbox.inference', 'rsatoolbox.util'])
 
@@ -237,7 +243,8 @@ class Stock:
         if pname == 'desc_new' and fname == 'append_descriptor':
             return [lambda: {'a': [4], 'b': np.array(['w']), 'index': [0]}]
         extra = {'category_idxs': [lambda: [1, 2, 4]], 'category_1_idxs': [lambda: [0, 1]], 'category_2_idxs': [lambda: [2, 4]],
-                 'ci_percent': [lambda: 0.9], 'variance': [lambda: np.eye(5) * 0.01 + 0.001], 'size': [lambda: 4],
+                 'ci_percent': [lambda: 0.9], 'variance': [lambda: np.eye(5) * 0.01 + 0.001, lambda: np.array([np.eye(5) * (0.01 + 0.01 * t) + 0.001 for t in range(3)]),
+                              lambda: np.full(5, 0.02)], 'size': [lambda: 4],
                  'dissimilarities': [lambda: np.arange(1.0, 11.0)], 'family_index': [lambda: 1]}
         if pname in extra:
             return extra[pname]
@@ -324,7 +331,7 @@ def sweep(ctx, variant=0, report=None, only=None):
             extra_opts = [(p.name, v) for p in params if p.default is not inspect._empty
                           for v in OPTIONAL_VARIANTS.get(p.name, [])]
             pnames = {p.name for p in params if p.default is not inspect._empty}
-            combos = [c for c in OPTIONAL_COMBOS if set(c) <= pnames]
+            combos = [c for c in OPTIONAL_COMBOS if set(c) <= pnames | {p.name for p in needed} and set(c) & pnames]
             attempts = ([(sf, ch, None) for sf, ch in attempts[:14]] + [(selfs[0], {k: 0 for k in cand}, ov) for ov in extra_opts]
                         + [(selfs[0], {k: 0 for k in cand}, c) for c in combos])
             ok = False
